@@ -174,8 +174,15 @@ def run(m: Model, r: Report, tier: str) -> None:
     r.check(okz, "R2", f"{rz.qualname}#always-closes",
             "remove_zst_log_handler can return without closing the handler: the queue listener keeps running and the zstd frame of log.json.zst is never "
             "ended (unreadable / truncated log): " + " -> ".join(repr(gz.nodes[p_]) for p_ in pz[-3:]), loc=rz.loc)
-    from checks.c17 import zstd_close_rules
+    from sa.uds_rules import ranges_validator_accepts_stored_form
+    ranges_validator_accepts_stored_form(m, r, "R7")
+    # what the exception handlers of entry_point log is `{e!r}`: the repr of UDS exceptions formats requests / responses through the core helpers, which must be total
+    from sa.uds_rules import guarded_enum_coercions
+    if guarded_enum_coercions(m, r, "R3", ("gallia.services.uds.core",)) < 1:
+        raise AnalysisError("no guarded enum coercion found in gallia.services.uds.core (service_repr)")
+    from checks.c17 import zstd_close_rules, log_queues_unbounded
     zstd_close_rules(m, r, "R2")
+    log_queues_unbounded(m, r, "R2")
     # the DB completion takes the exit code from run_meta
     fin = m.require_function(f"{BASE}.BaseCommand._db_finish_run_meta")
     calls = [n for n in ast.walk(fin.node) if isinstance(n, ast.Call) and isinstance(n.func, ast.Attribute) and n.func.attr == "complete_run_meta"]
@@ -224,6 +231,13 @@ def run(m: Model, r: Report, tier: str) -> None:
     # ---------------------------------------------------------------- R8
     gh = CFG(rh.node)
     env_arg = [k.value for n in ast.walk(rh.node) if isinstance(n, ast.Call) and ast.unparse(n.func) in ("run", "subprocess.run") for k in n.keywords if k.arg == "env"]
+    if len(env_arg) == 1 and isinstance(env_arg[0], ast.BinOp) and isinstance(env_arg[0].op, ast.BitOr):
+        # env=<a> | <b>: the right operand wins; the run-specific mapping must not be the losing side of a merge with the inherited environment
+        left_, right_ = env_arg[0].left, env_arg[0].right
+        inherited_right = "environ" in ast.unparse(right_)
+        r.check(not inherited_right, "R8", f"{rh.qualname}#merge-at-call", f"the hook is started with env=`{ast.unparse(env_arg[0])}`: in `a | b` the right side wins, so GALLIA_META / "
+                "GALLIA_EXIT_CODE inherited from the process environment (gallia started from another run's post-hook) replace this run's values", loc=rh.loc)
+        env_arg = [left_ if isinstance(left_, ast.Name) else right_]
     if len(env_arg) != 1 or not isinstance(env_arg[0], ast.Name):
         raise AnalysisError(f"{rh.qualname}: run(..., env=<name>) not found")
     EV = env_arg[0].id
